@@ -1354,8 +1354,41 @@ class Program:
             out.append(f)
         return out
 
+    def default_args_worker(self, f, depth=2):
+        """`fn new(c) { Self::new_with_x(c, &[]) }`: an entry point that forwards its parameters in order, followed by
+        constants, to a sibling whose name extends its own, is that sibling's default path — the logic a rule anchors on
+        lives in the sibling.  Returns the sibling (followed at most twice), else f."""
+        while depth > 0:
+            depth -= 1
+            calls = [b for b in f.blocks if b["term"]["k"] == "call" and not b.get("cleanup")]
+            if len(calls) != 1 or f.terms.ret is None:
+                return f
+            r = f.terms.ret
+            while isinstance(r, tuple) and r and r[0] in ("ref", "deref"):
+                r = r[1]
+            if not (isinstance(r, tuple) and r and r[0] == "call" and (r[1].local or r[1].res_local)):
+                return f
+            args = r[2]
+            if len(args) <= f.argc or any(strip_refs(a) != ("param", i + 1) for i, a in enumerate(args[:f.argc])):
+                return f
+            def constlike(a):
+                a = strip_refs(a)
+                while isinstance(a, tuple) and a and a[0] == "cast":
+                    a = strip_refs(a[2])
+                return isinstance(a, tuple) and a and (a[0] in ("const", "constitem") or (a[0] == "agg" and not a[4]))
+            if not all(constlike(a) for a in args[f.argc:]):
+                return f
+            gs = [g for g in self.resolve(r[1]) if "{closure" not in g.npath]
+            if len(gs) != 1 or gs[0].impl_self != f.impl_self or not gs[0].name.startswith(f.name) or gs[0] is f:
+                return f
+            f = gs[0]
+        return f
+
     def find1(self, **kw):
+        follow = kw.pop("follow_defaults", True)
         r = self.find(**kw)
+        if len(r) == 1 and follow and kw.get("name"):
+            return self.default_args_worker(r[0])
         if len(r) != 1:
             from .facts import CheckerError
             raise CheckerError("anchor lookup %r matched %d functions: %s"
